@@ -28,6 +28,18 @@ def Ty.annotated : Ty → Bool
   | .unset | .absent => false
   | _ => true
 
+/-- What a declaration can give a parameter or physical field
+(`unbounded_expression_type_for_physical_type`): never "no type". -/
+inductive DTy
+  | int | bool | enum (n : Nat) | opaque
+  deriving DecidableEq, Repr
+
+def DTy.toTy : DTy → Ty
+  | .int => .int
+  | .bool => .bool
+  | .enum n => .enum n
+  | .opaque => .opaque
+
 /-- integer, boolean or enumeration: the types a value-level operator can handle. -/
 def Ty.isValue : Ty → Bool
   | .int | .bool | .enum _ => true
@@ -55,9 +67,9 @@ inductive Expr
   | cphys (l : Loc) (dl : Loc)             -- constant_reference → physical field (at dl)
   | cvirt (l : Loc) (d : Expr)             -- constant_reference → virtual field with read_transform d
   | cother (l : Loc)                       -- constant_reference → anything else (a runtime parameter)
-  | lparam (l : Loc) (t : Ty)              -- field_reference → runtime parameter of atomic physical type
+  | lparam (l : Loc) (t : DTy)             -- field_reference → runtime parameter of atomic physical type
   | lparamArr (l : Loc)                    -- field_reference → runtime parameter declared with an array type
-  | lphys (l : Loc) (t : Ty)               -- field_reference → physical field (opaque for arrays/structs)
+  | lphys (l : Loc) (t : DTy)              -- field_reference → physical field (opaque for arrays/structs)
   | lvirt (l : Loc) (d : Expr)             -- field_reference → virtual field with read_transform d
   | builtin (l : Loc) (isBool : Bool)      -- $is_statically_sized (true) / $static_size_in_bits (false)
   | bin (l : Loc) (op : BinOp) (a b : Expr)
@@ -191,9 +203,9 @@ def tc : Expr → Res
     let r := tc d
     { r with ty := r.ty.copied }
   | .cother _ => ⟨.absent, [], some .constRefOther⟩
-  | .lparam _ t => .pure t
+  | .lparam _ t => .pure t.toTy
   | .lparamArr _ => ⟨.absent, [], some .arrayParamRef⟩
-  | .lphys _ t => .pure t
+  | .lphys _ t => .pure t.toTy
   | .lvirt _ d =>
     let r := tc d
     -- an unannotated read_transform is re-checked through the reference, and the messages
@@ -273,7 +285,7 @@ end
 definition yields expression type `t`. -/
 inductive PTy
   | array
-  | atomic (t : Ty)
+  | atomic (t : DTy)
   deriving DecidableEq, Repr
 
 structure Param where
@@ -284,7 +296,7 @@ structure Param where
 def Param.ty (p : Param) : Ty :=
   match p.pty with
   | .array => .unset
-  | .atomic t => t
+  | .atomic t => t.toTy
 
 /-- An `AtomicType` use with its passed runtime parameters; `expected` are the
 `(type, source_location)` of the referenced definition's parameters. -/
@@ -425,7 +437,7 @@ inductive Outcome
   | accepted
   | rejected (pass : Nat) (errs : List Err)   -- 1 annotate_types, 2 check_types, 3 attribute typing, 9 deferred (synthetic)
   | crashed (c : Crash)
-  deriving Repr
+  deriving Repr, DecidableEq
 
 /-- `glue.process_ir` restricted to the three modelled passes: a pass with visible errors
 stops the pipeline; hidden (synthetic) ones are deferred to the end. -/
